@@ -131,6 +131,8 @@ type c10Case struct {
 	Mode  Mode        `json:"mode"`
 	Sort  bool        `json:"sort"`
 	Count int         `json:"count"`
+	// ForeignTmp: Clean runs with TMPDIR on another file system than the snapshot directory
+	ForeignTmp bool `json:"tmpdir_on_another_file_system,omitempty"`
 }
 
 func (e cleanEntry) id() string   { return entryID(e.Test, e.Ord) }
@@ -242,7 +244,7 @@ func genC10(t *rapid.T) c10Case {
 	ntests := rapid.IntRange(1, 5).Draw(t, "ntests")
 	names := genNamePool(t, ntests)
 	o := textOpts{escapeToken: true, headerLike: true, names: names, maxLines: 4}
-	c := c10Case{Mode: genCleanMode(t), Sort: rapid.IntRange(0, 2).Draw(t, "sort") > 0, Count: 1}
+	c := c10Case{Mode: genCleanMode(t), Sort: rapid.IntRange(0, 2).Draw(t, "sort") > 0, Count: 1, ForeignTmp: rapid.IntRange(0, 3).Draw(t, "foreigntmp") == 0}
 	for i := 0; i < nfiles; i++ {
 		cfg := CfgSpec{Dir: "snaps", Filename: []string{"f", "g"}[i]}
 		c.Files = append(c.Files, genCleanFile(t, cfg, names, o, col, 25, true))
@@ -375,7 +377,10 @@ func checkC10(c c10Case) error {
 	}
 	ageDir(root)
 	before := snapDir(root)
-	if _, err := runCleanProcess(root, c.Files, c.Mode, c.Count, c.Sort); err != nil {
+	foreignTmp = c.ForeignTmp
+	_, err := runCleanProcess(root, c.Files, c.Mode, c.Count, c.Sort)
+	foreignTmp = false
+	if err != nil {
 		return err
 	}
 	after := snapDir(root)
